@@ -136,7 +136,7 @@ def solution_rules(ctx, body):
     for x in T.expr_walk(ex):
         if x[0] == 'call' and x[1] == 'evaluate' and re.search(r'<v1::Function as evaluate::Evaluate>::evaluate', x[2]):
             if T.expr_has_call(x[3][0], 'objective') and T.strip_wrappers(x[3][1]) == ('place', 2, []): okobj = True
-    fs = [f for a, f in T.expr_fields(ex) if a == 'tuple']
+    fs = [f for a, f in T.own_fields(ex) if a == 'tuple']
     ctx.check(okobj and fs[-1:] == ['0'], R + '.objective/is-objective-value', 'T-CARRY', body.name, 'Solution.objective is not `.0` of self.objective().evaluate(state): %s' % T.expr_str(ex), body.site(sbi))
     objev = [c for c in body.calls if c.item == 'evaluate' and re.search(r'<v1::Function as evaluate::Evaluate>::evaluate', c.name)]
     errflow_calls(ctx, R + '.objective/error-propagates', body, objev, 'objective evaluation')
@@ -313,7 +313,7 @@ def constraint_rules(ctx):
                 ctx.check(root == 1 and fs == [(CON, f)], R + '/Constraint::evaluate/carry/' + f, 'T-CARRY', b.name, 'EvaluatedConstraint.%s is not self.%s (path %s)' % (f, f, fs), b.site(bi))
             ev = T.expr(b, agg_field_operand(st, 'evaluated_value'), depth=14)
             okv = any(x[0] == 'call' and x[1] == 'evaluate' and 'v1::Function as evaluate::Evaluate' in x[2] and T.expr_has_call(x[3][0], 'function') and T.strip_wrappers(x[3][1]) == ('place', 2, []) for x in T.expr_walk(ev))
-            ctx.check(okv and [f for a, f in T.expr_fields(ev) if a == 'tuple'][-1:] == ['0'], R + '/Constraint::evaluate/value', 'T-CARRY', b.name, 'evaluated_value is not `.0` of self.function().evaluate(state): %s' % T.expr_str(ev), b.site(bi))
+            ctx.check(okv and [f for a, f in T.own_fields(ev) if a == 'tuple'][-1:] == ['0'], R + '/Constraint::evaluate/value', 'T-CARRY', b.name, 'evaluated_value is not `.0` of self.function().evaluate(state): %s' % T.expr_str(ev), b.site(bi))
             us = slice_op(ctx, b, agg_field_operand(st, 'used_decision_variable_ids'))
             ctx.check(us.has_call(r'v1::Function as evaluate::Evaluate>::evaluate'), R + '/Constraint::evaluate/used-ids', 'T-CARRY', b.name, 'used ids do not come from the function evaluation', b.site(bi))
             rr = agg_field_operand(st, 'removed_reason')
